@@ -18,7 +18,7 @@
     [Err EUnmodelled] (never produced for ordinary message cells). *)
 From Coq Require Import List NArith ZArith Arith Bool.
 From Tongo Require Import Lib.Bits Lib.Res Model.BocParse Model.CellHash Spec.ReprHash.
-From Tongo Require Spec.Dict Model.Hashmap.
+From Tongo Require Spec.Dict Model.Hashmap Model.TlbCore.
 Import ListNotations.
 
 Definition EUnmodelled : N := 77.   (* outside the modelled input class; never compared *)
@@ -114,6 +114,42 @@ Definition v5beta_bits (msgtype net : N) (wc : Z) (sub : N) (valid : Z) (seqno :
    Maybe extended actions = absent *)
 Definition v5r1_bits (msgtype wid : N) (valid : Z) (seqno : N) : bits :=
   u32 msgtype ++ u32 wid ++ u32 (unix32 valid) ++ u32 seqno ++ [true; false].
+
+(* v5r1 extended actions (W5ExtendedAction): add_extension#02 addr,
+   remove_extension#03 addr, set_signature_allowed#04 allowed.
+   W5ExtendedActions.MarshalTLB writes the first action into the cell at hand and
+   every further action into a new cell referenced from the previous one. *)
+Inductive extaction :=
+| XAdd (a : TlbCore.addrv) | XRemove (a : TlbCore.addrv) | XSetSig (allowed : bool).
+
+Definition ext_action_bits (x : extaction) : res bits :=
+  match x with
+  | XAdd a => if TlbCore.addr_ok a then Ok (u8 2 ++ TlbCore.addr_bits a) else Err EWallet
+  | XRemove a => if TlbCore.addr_ok a then Ok (u8 3 ++ TlbCore.addr_bits a) else Err EWallet
+  | XSetSig b => Ok (u8 4 ++ [b])
+  end.
+
+Definition opt_list {A} (o : option A) : list A := match o with Some x => [x] | None => [] end.
+
+(* the chain of cells holding the actions after the first *)
+Fixpoint ext_tail (xs : list extaction) : res (option cell) :=
+  match xs with
+  | [] => Ok None
+  | x :: t => do n <- ext_tail t;
+              do xb <- ext_action_bits x;
+              do c <- mk xb (opt_list n);
+              Ok (Some c)
+  end.
+
+(* Maybe W5ExtendedActions inside the body cell: the bits after the actions bit
+   and the extra references.  (A non-nil empty list writes the bit alone; the
+   library cannot decode that.) *)
+Definition v5r1x_parts (xs : option (list extaction)) : res (bits * list cell) :=
+  match xs with
+  | None => Ok ([false], [])
+  | Some [] => Ok ([true], [])
+  | Some (x :: t) => do xb <- ext_action_bits x; do n <- ext_tail t; Ok ([true] ++ xb, opt_list n)
+  end.
 
 (* PayloadHighload.MarshalTLB (after the repair: HashmapE, so that an empty list
    is hme_empty$0): keys 0..n-1 as uint16, value = the cell (mode ^message) as Any *)
@@ -222,6 +258,18 @@ Definition create_body (w : wallet) (sk : SK) (ms : list rawmsg) (seqno : N) (va
   do u <- unsigned_body w ms seqno valid msgtype rnd;
   if sig_appended (w_ver w) then sign_append sk (cdata u) (crefs u) else sign_body sk u.
 
+(* walletV5R1.CreateSignedMsgBodyCell with extended actions (exported method) *)
+Definition unsigned_v5r1x (w : wallet) (ms : list rawmsg) (xs : option (list extaction))
+           (seqno : N) (valid : Z) (msgtype : N) : res cell :=
+  do a <- actions_cell ms;
+  do p <- v5r1x_parts xs;
+  mk (u32 msgtype ++ u32 (w_wid w) ++ u32 (unix32 valid) ++ u32 seqno ++ [true] ++ fst p) (a :: snd p).
+
+Definition create_body_v5r1x (w : wallet) (sk : SK) (ms : list rawmsg) (xs : option (list extaction))
+           (seqno : N) (valid : Z) (msgtype : N) : res cell :=
+  do u <- unsigned_v5r1x w ms xs seqno valid msgtype;
+  sign_append sk (cdata u) (crefs u).
+
 (** *** the external message: ext_in_msg_info$10 src:addr_none$00
     dest:addr_std$10 anycast:nothing$0 workchain:int8 address:bits256
     import_fee:Grams=0 init:(Maybe (Either StateInit ^StateInit)) body:(Either X ^X),
@@ -244,69 +292,133 @@ Definition raw_send_msg (w : wallet) (sk : SK) (wc : Z) (addr : bits) (seqno : N
 
 (** *** decoding *)
 
-(* tlb.StateInit decoded from its own cell; only success matters.  A library
-   dictionary is outside the modelled class. *)
-Definition stateinit_ok (c : cell) : res unit :=
-  do a <- take 1 (cdata c);
+(* HashmapE[K, V] in the middle of a cell: consumes one bit and, when set, one
+   reference holding a dictionary whose every value (bits, references of the
+   leaf after the label) is accepted by [vok], i.e. decodes as V.  A dictionary
+   containing exotic cells is outside the model. *)
+Definition dict_skip (n : nat) (vok : bits -> list Dict.cell -> bool) (l : bits) (refs : list cell)
+  : res (bits * list cell) :=
+  do b <- take 1 l;
+  if nth 0 (fst b) false then
+    match refs with
+    | [] => Err ENotEnoughRefs
+    | r :: rest =>
+        match to_dict r with
+        | None => Err EUnmodelled
+        | Some d =>
+            do kvs <- Hashmap.decode Hashmap.vdec_any n d;
+            if forallb (fun kv => match snd kv with Dict.Cell b' r' => vok b' r' end) kvs
+            then Ok (snd b, rest) else Err ENotEnoughBits
+        end
+    end
+  else Ok (snd b, refs).
+
+(* SimpleLib = public:Bool root:^Cell; VarUInteger 32 = len:(#< 32) value:(uint (len * 8)) *)
+Definition simplelib_ok (b : bits) (r : list Dict.cell) : bool := negb (short 1 b) && negb (short 1 r).
+Definition varuint32_ok (b : bits) (_ : list Dict.cell) : bool :=
+  negb (short 5 b) && negb (short (5 + 8 * N.to_nat (N_of_bits (firstn 5 b))) b).
+
+(* tlb.StateInit read from a cursor (bits, references): split_depth:(Maybe (## 5))
+   special:(Maybe TickTock) code:(Maybe ^Cell) data:(Maybe ^Cell)
+   library:(HashmapE 256 SimpleLib), SimpleLib = public:Bool root:^Cell.
+   Returns what is left of the cursor. *)
+Definition stateinit_dec (l : bits) (refs : list cell) : res (bits * list cell) :=
+  do a <- take 1 l;
   do b <- (if nth 0 (fst a) false then do x <- take 5 (snd a); Ok (snd x) else Ok (snd a));
   do t <- take 1 b;
   do b2 <- (if nth 0 (fst t) false then do x <- take 2 (snd t); Ok (snd x) else Ok (snd t));
   do cd <- take 1 b2;
   do rs1 <- (if nth 0 (fst cd) false
-             then match crefs c with [] => Err ENotEnoughRefs | _ :: r => Ok r end
-             else Ok (crefs c));
+             then match refs with [] => Err ENotEnoughRefs | _ :: r => Ok r end
+             else Ok refs);
   do dt <- take 1 (snd cd);
   do rs2 <- (if nth 0 (fst dt) false
              then match rs1 with [] => Err ENotEnoughRefs | _ :: r => Ok r end
              else Ok rs1);
-  do lb <- take 1 (snd dt);
-  if nth 0 (fst lb) false then Err EUnmodelled else Ok tt.
+  dict_skip 256 simplelib_ok (snd dt) rs2.
 
-Record extmsg := mkext { e_wc : N; e_addr : bits; e_init : option cell; e_body : cell }.
+(* a StateInit in its own cell (what is left over is ignored) *)
+Definition stateinit_ok (c : cell) : res unit :=
+  do _ <- stateinit_dec (cdata c) (crefs c); Ok tt.
 
-(* tlb.Unmarshal(msg, &tlb.Message) on the class: external-in, source
-   addr_none, destination addr_std without anycast, any import fee, init absent
-   or by reference (without library), body inline or by reference.  Any and
-   Ref[Any] copy the bits and references into a new ordinary cell. *)
+(* Grams / VarUInteger 16: 4-bit byte length, then the bytes *)
+Definition grams_dec (l : bits) : res (N * bits) :=
+  do n <- take 4 l;
+  do v <- take (8 * N.to_nat (N_of_bits (fst n))) (snd n);
+  Ok (N_of_bits (fst v), snd v).
+
+(* CommonMsgInfo *)
+Inductive msginfo :=
+| IInt (ihr_disabled bounce bounced : bool) (src dest : TlbCore.addrv) (grams : N)
+       (ihr_fee fwd_fee created_lt created_at : N)          (* int_msg_info$0 *)
+| IExtIn (src dest : TlbCore.addrv) (import_fee : N)          (* ext_in_msg_info$10 *)
+| IExtOut (src dest : TlbCore.addrv) (created_lt created_at : N).   (* ext_out_msg_info$11 *)
+
+Definition info_dec (l : bits) (refs : list cell) : res (msginfo * bits * list cell) :=
+  do t <- take 1 l;
+  if negb (nth 0 (fst t) false) then
+    do f <- take 3 (snd t);
+    do s <- TlbCore.addr_parse (snd f);
+    do d <- TlbCore.addr_parse (snd s);
+    do g <- grams_dec (snd d);
+    do ec <- dict_skip 32 varuint32_ok (snd g) refs;     (* other:ExtraCurrencyCollection *)
+    do ih <- grams_dec (fst ec);
+    do fw <- grams_dec (snd ih);
+    do lt <- take 64 (snd fw);
+    do at_ <- take 32 (snd lt);
+    Ok (IInt (nth 0 (fst f) false) (nth 1 (fst f) false) (nth 2 (fst f) false) (fst s) (fst d)
+             (fst g) (fst ih) (fst fw) (N_of_bits (fst lt)) (N_of_bits (fst at_)), snd at_, snd ec)
+  else
+    do k <- take 1 (snd t);
+    do s <- TlbCore.addr_parse (snd k);
+    do d <- TlbCore.addr_parse (snd s);
+    if negb (nth 0 (fst k) false) then
+      do g <- grams_dec (snd d);
+      Ok (IExtIn (fst s) (fst d) (fst g), snd g, refs)
+    else
+      do lt <- take 64 (snd d);
+      do at_ <- take 32 (snd lt);
+      Ok (IExtOut (fst s) (fst d) (N_of_bits (fst lt)) (N_of_bits (fst at_)), snd at_, refs).
+
+(* the decoded tlb.Message: info, the StateInit as a cell (the referenced cell, or
+   for an inline StateInit the bits and references it occupied), the body as the
+   cell Any / Ref[Any] copy it into *)
+Record extmsg := mkext { e_info : msginfo; e_init : option cell; e_body : cell }.
+
+Definition drop_suffix {A} (whole rest : list A) : list A := firstn (length whole - length rest) whole.
+
+(* tlb.Unmarshal(msg, &tlb.Message): every constructor of CommonMsgInfo, every
+   MsgAddress form, init absent / inline / by reference (libraries included),
+   body inline or by reference *)
 Definition parse_ext (m : cell) : res extmsg :=
   do _ <- chash m;
-  do t <- take 2 (cdata m);
-  match fst t with
-  | [true; false] =>
-      do s <- take 2 (snd t);
-      match fst s with
-      | [false; false] =>
-          do d <- take 3 (snd s);
-          match fst d with
-          | [true; false; false] =>
-              do wc <- take 8 (snd d);
-              do ad <- take 256 (snd wc);
-              do fl <- take 4 (snd ad);
-              do fee <- take (8 * N.to_nat (N_of_bits (fst fl))) (snd fl);
-              do ib <- take 1 (snd fee);
-              do ir <- (if nth 0 (fst ib) false then
-                          do e <- take 1 (snd ib);
-                          if nth 0 (fst e) false then
-                            match crefs m with
-                            | [] => Err ENotEnoughRefs
-                            | i :: r => do _ <- stateinit_ok i; Ok (Some i, snd e, r)
-                            end
-                          else Err EUnmodelled
-                        else Ok (None, snd ib, crefs m));
-              let '(init, rest, refs) := ir in
-              do bb <- take 1 rest;
-              if nth 0 (fst bb) false then
-                match refs with
+  do i <- info_dec (cdata m) (crefs m);
+  let '(info, l0, r0) := i in
+  do ib <- take 1 l0;
+  do ir <- (if nth 0 (fst ib) false then
+              do e <- take 1 (snd ib);
+              if nth 0 (fst e) false then
+                match r0 with
                 | [] => Err ENotEnoughRefs
-                | b :: _ => Ok (mkext (N_of_bits (fst wc)) (fst ad) init (ocell (cdata b) (crefs b)))
+                | si :: r => do _ <- stateinit_ok si; Ok (Some si, snd e, r)
                 end
-              else Ok (mkext (N_of_bits (fst wc)) (fst ad) init (ocell (snd bb) refs))
-          | _ => Err EUnmodelled
-          end
-      | _ => Err EUnmodelled
-      end
-  | _ => Err EUnmodelled
-  end.
+              else
+                do x <- stateinit_dec (snd e) r0;
+                Ok (Some (ocell (drop_suffix (snd e) (fst x)) (drop_suffix r0 (snd x))), fst x, snd x)
+            else Ok (None, snd ib, r0));
+  let '(init, rest, refs) := ir in
+  do bb <- take 1 rest;
+  if nth 0 (fst bb) false then
+    match refs with
+    | [] => Err ENotEnoughRefs
+    | b :: _ => Ok (mkext info init (ocell (cdata b) (crefs b)))
+    end
+  else Ok (mkext info init (ocell (snd bb) refs)).
+
+(* the info CreateExternalMessage writes *)
+Definition int8_of (z : Z) : Z := ((z + 128) mod 256 - 128)%Z.
+Definition ext_in_std (wc : Z) (addr : bits) : msginfo :=
+  IExtIn TlbCore.ANone (TlbCore.AStd None (int8_of wc) addr) 0.
 
 (* SignedMsgBody: Sign Bits512, Message Any *)
 Definition split_signed (body : cell) : res (bits * cell) :=
@@ -424,32 +536,64 @@ Definition decode_v5beta (body : cell) : res decoded :=
   do ms <- actions_dec r;
   Ok (mkdec (N_of_bits (fst a)) (N_of_bits (fst b)) (N_of_bits (fst c)) (N_of_bits (fst o)) ms).
 
+(* W5ExtendedActions.UnmarshalTLB: one action from the cell at hand, then the
+   next reference of that cell (if any) holds the rest *)
+Definition ext_one (l : bits) : res (extaction * bits) :=
+  do t <- take 8 l;
+  let tag := N_of_bits (fst t) in
+  if N.eqb tag 2 then do a <- TlbCore.addr_parse (snd t); Ok (XAdd (fst a), snd a)
+  else if N.eqb tag 3 then do a <- TlbCore.addr_parse (snd t); Ok (XRemove (fst a), snd a)
+  else if N.eqb tag 4 then do b <- take 1 (snd t); Ok (XSetSig (nth 0 (fst b) false), snd b)
+  else Err ETag.
+
+Fixpoint ext_chain_dec (c : cell) : res (list extaction) :=
+  match c with
+  | Cell _ _ _ d rs =>
+      do x <- ext_one d;
+      match rs with
+      | [] => Ok [fst x]
+      | nxt :: _ => do t <- ext_chain_dec nxt; Ok (fst x :: t)
+      end
+  end.
+
+(* inside the body cell: [refs] are the references not yet read; returns the
+   unread bits of the body cell *)
+Definition ext_dec_body (l : bits) (refs : list cell) : res (list extaction * bits) :=
+  do x <- ext_one l;
+  match refs with
+  | [] => Ok ([fst x], snd x)
+  | nxt :: _ => do t <- ext_chain_dec nxt; Ok (fst x :: t, snd x)
+  end.
+
 (* MessageV5: SignedInternal / SignedExternal / ExtensionAction; RawMessages()
-   is empty for the last and when the actions are absent; extended actions are
-   outside the modelled class *)
-Definition decode_v5r1 (body : cell) : res decoded :=
+   is empty for the last and when the actions are absent.  Also returns the
+   extended actions. *)
+Definition decode_v5r1x (body : cell) : res (decoded * option (list extaction)) :=
   do tg <- take 32 (cdata body);
   let t := N_of_bits (fst tg) in
+  let tail (l : bits) (signed : bool) (mk_dec : list rawmsg -> decoded) :=
+    do am <- take 1 l;
+    do ms <- (if nth 0 (fst am) false then do r <- first_ref (crefs body); actions_dec r
+              else Ok []);
+    let refs' := if nth 0 (fst am) false then tl (crefs body) else crefs body in
+    do em <- take 1 (snd am);
+    do xr <- (if nth 0 (fst em) false then
+                do x <- ext_dec_body (snd em) refs'; Ok (Some (fst x), snd x)
+              else Ok (None, snd em));
+    do _ <- (if signed then take 512 (snd xr) else Ok ([], []));
+    Ok (mk_dec ms, fst xr) in
   if N.eqb t op_signed_internal || N.eqb t op_signed_external then
     do a <- take 32 (snd tg);
     do b <- take 32 (snd a);
     do c <- take 32 (snd b);
-    do am <- take 1 (snd c);
-    do ms <- (if nth 0 (fst am) false then do r <- first_ref (crefs body); actions_dec r
-              else Ok []);
-    do em <- take 1 (snd am);
-    if nth 0 (fst em) false then Err EUnmodelled else
-    do _ <- take 512 (snd em);
-    Ok (mkdec (N_of_bits (fst a)) (N_of_bits (fst b)) (N_of_bits (fst c)) 0 ms)
+    tail (snd c) true (fun ms => mkdec (N_of_bits (fst a)) (N_of_bits (fst b)) (N_of_bits (fst c)) 0 ms)
   else if N.eqb t op_extension_action then
     do q <- take 64 (snd tg);
-    do am <- take 1 (snd q);
-    do _ <- (if nth 0 (fst am) false then do r <- first_ref (crefs body); actions_dec r
-             else Ok []);
-    do em <- take 1 (snd am);
-    if nth 0 (fst em) false then Err EUnmodelled else
-    Ok (mkdec 0 0 0 (N_of_bits (fst q)) [])
+    tail (snd q) false (fun _ => mkdec 0 0 0 (N_of_bits (fst q)) [])
   else Err ETag.
+
+Definition decode_v5r1 (body : cell) : res decoded :=
+  do x <- decode_v5r1x body; Ok (fst x).
 
 (* PayloadHighload.UnmarshalTLB: every value is mode:uint8 ^message *)
 Fixpoint hl_values (kvs : list (bits * Dict.cell)) : res (list rawmsg) :=
